@@ -151,6 +151,7 @@ class CellWrapper:
         # Calculate actual and available width
         actual_width = 0
         last_adapted_col = 0
+        remaining = 0
 
         # "Long" columns, i.e. columns that need to be wrapped, are added to
         # the actual width
@@ -160,6 +161,7 @@ class CellWrapper:
 
             actual_width += length
             last_adapted_col = col
+            remaining += 1
 
         # Fit columns into available width
         for col, length in enumerate(long_column_lengths):
@@ -167,10 +169,11 @@ class CellWrapper:
                 continue
 
             # Keep ratios of column lengths and distribute them among the
-            # available width
-            self._column_lengths[col] = int(
-                round((length / actual_width) * available_width)
-            )
+            # width that is still available: at least one character, and
+            # at least one left for every column that is still to be fitted
+            remaining -= 1
+            share = int(round((length / actual_width) * available_width))
+            self._column_lengths[col] = max(1, min(share, available_width - remaining))
 
             if col == last_adapted_col:
                 # Fix rounding errors
@@ -183,8 +186,9 @@ class CellWrapper:
             # Recalculate the column length based on the actual wrapped length
             self._refresh_column_length(col)
 
-            # Recalculate the actual width based on the changed length.
-            actual_width = actual_width - length + self._column_lengths[col]
+            # The following columns share what this one left over.
+            actual_width -= length
+            available_width -= self._column_lengths[col]
 
         self._total_width = sum(self._column_lengths)
 
